@@ -517,8 +517,15 @@ Qed.
 Lemma used_features_mask d m u : used_features d (Some m) = Some u ->
   length m = d /\ forall f, In f u <-> (f < d)%nat /\ nth f m false = true.
 Proof.
-  cbn [used_features]. destruct (length m =? d)%nat eqn:E; [|discriminate]. apply Nat.eqb_eq in E. intros H. injection H as <-.
-  split; [exact E|]. intros f. rewrite filter_In, in_seq. split; intros [A B]; split; try assumption; lia.
+  cbn [used_features]. destruct (length m =? d)%nat eqn:E; [|discriminate]. apply Nat.eqb_eq in E.
+  destruct (filter (fun i => nth i m false) (seq 0 d)) as [|a w] eqn:Ef; [discriminate|]. intros H. injection H as <-.
+  split; [exact E|]. intros f. rewrite <- Ef, filter_In, in_seq. split; intros [A B]; split; try assumption; lia.
+Qed.
+
+Lemma used_features_nonempty d m u : used_features d (Some m) = Some u -> u <> [].
+Proof.
+  cbn [used_features]. destruct (length m =? d)%nat; [|discriminate].
+  destruct (filter (fun i => nth i m false) (seq 0 d)) as [|a w]; [discriminate|]. intros H. injection H as <-. discriminate.
 Qed.
 
 Definition n_used (d : nat) (mask : option (list bool)) : nat :=
@@ -534,8 +541,9 @@ Qed.
 Lemma used_features_count d mask u : used_features d mask = Some u -> length u = n_used d mask.
 Proof.
   destruct mask as [m|]; cbn [used_features n_used].
-  - destruct (length m =? d)%nat eqn:E; [|discriminate]. apply Nat.eqb_eq in E. intros H. injection H as <-. subst d.
-    rewrite <- (filter_seq_nth m 0). f_equal. apply filter_ext. intros i. rewrite Nat.sub_0_r. reflexivity.
+  - destruct (length m =? d)%nat eqn:E; [|discriminate]. apply Nat.eqb_eq in E.
+    destruct (filter (fun i => nth i m false) (seq 0 d)) as [|a w] eqn:Ef; [discriminate|]. intros H. injection H as <-. subst d.
+    rewrite <- Ef, <- (filter_seq_nth m 0). f_equal. apply filter_ext. intros i. rewrite Nat.sub_0_r. reflexivity.
   - intros H. injection H as <-. apply seq_length.
 Qed.
 
